@@ -119,12 +119,12 @@ func callAlphabet() []callSpec {
 }
 
 type localResult struct {
-	Histories   int      `json:"histories"`
-	Checks      int      `json:"checks"`
-	Skipped     int      `json:"skipped"`
-	Promotions  int      `json:"promotions"`
-	States      int      `json:"states"`
-	Failures    []seqFailure `json:"failures,omitempty"`
+	Histories  int          `json:"histories"`
+	Checks     int          `json:"checks"`
+	Skipped    int          `json:"skipped"`
+	Promotions int          `json:"promotions"`
+	States     int          `json:"states"`
+	Failures   []seqFailure `json:"failures,omitempty"`
 }
 
 type seqFailure struct {
